@@ -5,6 +5,7 @@ pub mod sql_where;
 pub mod budget;
 pub mod pagelocks;
 pub mod groupcommit;
+pub mod commitorder;
 pub mod keyenc;
 pub mod keyenc_gen;
 pub mod keyenc_glue;
@@ -32,6 +33,7 @@ pub fn run(engine: &str, ctx: &Ctx) -> Report {
         "budget" => budget::run(ctx),
         "pagelocks" => pagelocks::run(ctx),
         "groupcommit" => groupcommit::run(ctx),
+        "commitorder" => commitorder::run(ctx),
         "keyenc" => keyenc::run(ctx),
         "simd" => simd::run(ctx),
         "sql_join" => sql_join::run(ctx),
